@@ -21,8 +21,8 @@ ASSUMPTIONS = ['thread cases: preemption happens only at the scheduler\'s yield 
                'file operations, source lines of the watched commit/poll/load functions); code between two yield points is atomic; '
                'C-level races inside BTrees/persistent/pickle are not explored',
                'sequential cases: interleaving of whole API calls in one thread']
-BUDGET = {'quick': {'examples': 8000, 'workers': 8},
-          'thorough': {'examples': 60000, 'workers': 16}}
+BUDGET = {'quick': {'examples': 10000, 'workers': 8},
+          'thorough': {'examples': 80000, 'workers': 16}}
 
 
 def thread_strategy(roles):
